@@ -146,7 +146,7 @@ func ruleC04Seq(r *Run) {
 							(len(a) == 1 && isF(a[0], m.rGroup) && dropped(v, m.rtHandlers))
 					case m.rGroup:
 						good = (len(a) == 2 && isF(a[0], m.rGroup) && a[0].Base == base && isP(a[1])) ||
-							(len(a) == 1 && isF(a[0], m.rGroup) && a[0].Base == base) ||
+							(len(a) == 1 && isF(a[0], m.rGroup) && (a[0].Base == base || f.Parent() != nil)) ||
 							(len(a) == 1 && isP(a[0]) && dropped(v, m.rGroup)) ||
 							(len(a) == 0 && dropped(v, m.rGroup))
 						if !good && len(a) == 1 && isP(a[0]) {
@@ -724,7 +724,41 @@ func ruleC12Bracket(r *Run) {
 			fa, ok := st.Addr.(*ssa.FieldAddr)
 			return ok && fieldVar(fa.X.Type(), fa.Field) == fd.fv && fa.X == ssa.Value(grp.Params[0]) && isSaved(st.Val)
 		}
+		// restore in a deferred closure installed before the callback: runs on every exit, panics included
+		deferredRestore := false
+		eachInstr(grp, func(in ssa.Instruction) {
+			d, ok := in.(*ssa.Defer)
+			if !ok || !dominates(d, cb) {
+				return
+			}
+			mc, ok := d.Call.Value.(*ssa.MakeClosure)
+			if !ok {
+				return
+			}
+			cl := mc.Fn.(*ssa.Function)
+			for _, st := range storesToField(cl, fd.fv) {
+				if canon(st.Addr.(*ssa.FieldAddr).X) != canon(grp.Params[0]) {
+					continue
+				}
+				if ld, ok := st.Val.(*ssa.UnOp); ok {
+					if fvv, ok := ld.X.(*ssa.FreeVar); ok {
+						if b := freeVarBinding(fvv); b != nil {
+							if cell, ok := b.(*ssa.Alloc); ok {
+								if sv := singleStore(cell); sv != nil && isSaved(sv) {
+									if okAll, _ := allPathsHit(cl, nil, func(x ssa.Instruction) bool { return x == ssa.Instruction(st) }); okAll {
+										deferredRestore = true
+									}
+								}
+							}
+						}
+					}
+				}
+			}
+		})
 		okR, bad := allPathsHit(grp, cb, isRestore)
+		if deferredRestore {
+			okR = true
+		}
 		d := "every path from the callback to return restores the value saved on entry"
 		if !okR {
 			d = "a path from the callback reaches return at " + w.Pos(w.InstrPos(bad)) + " without restoring " + fd.name + " to the value saved on entry (sibling groups and later routes inherit the residue)"
@@ -769,10 +803,10 @@ func ruleC12Bracket(r *Run) {
 	// who-may-write the two scope fields
 	for _, f := range w.Funcs {
 		for _, st := range storesToField(f, m.rPrefix) {
-			r.Check(rule, FuncName(f)+":writes currentGroupPrefix", w.InstrPos(st), f == grp, "the group prefix is written only by Group")
+			r.Check(rule, FuncName(f)+":writes currentGroupPrefix", w.InstrPos(st), f == grp || f.Parent() == grp, "the group prefix is written only by Group")
 		}
 		for _, st := range storesToField(f, m.rGroup) {
-			okW := f == grp || f == w.Fn("rux", "Router.Use")
+			okW := f == grp || f.Parent() == grp || f == w.Fn("rux", "Router.Use")
 			r.Check(rule, FuncName(f)+":writes currentGroupHandlers", w.InstrPos(st), okW, "the group middleware list is written only by Group and Router.Use")
 		}
 	}
@@ -783,8 +817,9 @@ func ruleC12Bracket(r *Run) {
 			continue
 		}
 		ok := false
-		if b, isB := st.Val.(*ssa.BinOp); isB && b.Op == token.ADD && isLoadOfField(b.X, m.rPrefix) {
-			if c, isC := b.Y.(*ssa.Call); isC && staticCallee(c) == fp && len(c.Call.Args) == 2 && c.Call.Args[0] == ssa.Value(grp.Params[0]) && c.Call.Args[1] == ssa.Value(grp.Params[1]) {
+		wantPrev := "*&" + canon(grp.Params[0]) + "." + m.rPrefix.Name()
+		if b, isB := st.Val.(*ssa.BinOp); isB && b.Op == token.ADD && (isLoadOfField(b.X, m.rPrefix) || canon(b.X) == wantPrev) {
+			if c, isC := b.Y.(*ssa.Call); isC && staticCallee(c) == fp && len(c.Call.Args) == 2 && canon(c.Call.Args[0]) == canon(grp.Params[0]) && canon(c.Call.Args[1]) == canon(grp.Params[1]) {
 				ok = true
 			}
 		}
@@ -841,6 +876,38 @@ func ruleC12CopyUse(r *Run) {
 	for i, st := range storesToField(use, m.rHandlers) {
 		ok := factHolds(st, func(c ssa.Value, t bool) bool { return prefixNonEmpty(c, !t) })
 		r.Check("C12-USE", fmt.Sprintf("(*Router).Use:global branch#%d", i+1), w.InstrPos(st), ok, map[bool]string{true: "the global list is extended only outside a group (prefix == \"\")", false: "Use inside a group leaks into the global middleware list"}[ok])
+	}
+	// inside every Group callback the scope marker (the prefix) has been extended: Use relies on it
+	grpFn := w.Fn("rux", "Router.Group")
+	var cbIn ssa.Instruction
+	eachInstr(grpFn, func(in ssa.Instruction) {
+		if c, ok := in.(*ssa.Call); ok && !c.Call.IsInvoke() && staticCallee(c) == nil {
+			if p, ok := c.Call.Value.(*ssa.Parameter); ok && p.Parent() == grpFn {
+				cbIn = in
+			}
+		}
+	})
+	if cbIn != nil {
+		isExtend := func(in ssa.Instruction) bool {
+			st, ok := in.(*ssa.Store)
+			if !ok {
+				return false
+			}
+			fa, ok := st.Addr.(*ssa.FieldAddr)
+			if !ok || fieldVar(fa.X.Type(), fa.Field) != m.rPrefix {
+				return false
+			}
+			// previous + a formatPath result (non-empty by C11-TOTAL's post-condition)
+			b, ok := st.Val.(*ssa.BinOp)
+			if !ok || b.Op != token.ADD {
+				return false
+			}
+			c, ok := b.Y.(*ssa.Call)
+			return ok && staticCallee(c) == w.Fn("rux", "Router.formatPath")
+		}
+		skip := pathExists(grpFn, nil, func(x ssa.Instruction) bool { return x == cbIn }, isExtend, nil)
+		r.Check("C12-USE", "(*Router).Group:prefix extended on every path to the callback", w.InstrPos(cbIn), !skip,
+			map[bool]string{true: "the callback always runs with a non-empty group prefix (previous + formatPath(prefix)), which is what Router.Use tests to tell group from global", false: "a path reaches the callback without extending the group prefix (e.g. for a root group): inside it the prefix can be empty, so Router.Use appends to the global list — the middleware runs for every route and before the group's own"}[!skip])
 	}
 	// C12-VIA
 	r.Floor("C12-VIA", 2)
